@@ -1,4 +1,4 @@
-"""Standard-model interpretations of the theory symbols added by ttvc/mx_opt.py (groups 'qdm', 'ichain')."""
+"""Standard-model interpretations of the theory symbols added by ttvc/mx_opt.py (groups 'qdm', 'qdmdef', 'ichain', 'spos')."""
 import numpy as np
 
 
@@ -29,4 +29,4 @@ def _qm(u, n):
     return int(u) % int(n)
 
 
-INTERP_EXT = {'qd': _qd, 'qm': _qm, 'ichain': _ichain}
+INTERP_EXT = {'qd': _qd, 'qm': _qm, 'ichain': _ichain, 'spos': lambda nn, a, b, l1, l2: (int(nn) * int(l1) + int(a)) * int(l2) + int(b)}
